@@ -81,6 +81,19 @@ CHECKS['C16'] = {
     'technique': 'counter-bound abstract interpretation + dead-branch/reachability + dominating-guard and term-shape matching on MIR',
 }
 
+CHECKS['C15'] = {
+    'category': 'other',
+    'text': 'Structural invariants decided on MIR: every construction of a Matrix / wholesale write of its fields is one of the audited sites and '
+            'locally re-establishes rows*cols == len (product assert, divisibility for inferred dimensions, length-preserving transpose + swap); '
+            'all 2-D accesses obey the row-major stride rule with bounds asserts in the Index impls; transpose, layout conversions, concatenation/'
+            'repetition and column extraction have the defining index signature; eye/diag/toeplitz/vandermonde/design have their pattern; arange/'
+            'linspace counts follow the documented end-point convention; rotation literals satisfy cw = ccw^T, R^T R = I, det = 1 symbolically; '
+            'approximate equality is sign-aware. Arbitrary operation sequences are covered inductively, not by a lock-step model.',
+    'design_ref': 'DESIGN.md 4.15, 3 (E-IDX, E-GRD must-check, E-TAB)',
+    'note': 'Trusted: approx_eq 0.1.8 rel_diff is sign-blind (quoted); serde-derived deserialisation is outside the property; dims >= 1 for column offset 0.',
+    'technique': 'typestate/invariant audit of all writers + affine access-map (stride) analysis + index-signature matching + symbolic polynomial algebra on literals',
+}
+
 NOT_APPLICABLE = {
     'C09': 'accuracy of the Lanczos/asymptotic/Abramowitz-Stegun approximations over a continuum of arguments is a numerical '
            'quantity; no structural clause is a necessary condition without freezing coefficient tables (a brittle proxy); see DESIGN.md 4.9',
